@@ -5,6 +5,8 @@ Three tables (all under /verif, nothing is written to disk and /repo is not touc
   * seeded/<name>/patch.diff   the confirmed seeded changes whose checks_result.txt lists the property under caught_by
   * ppsa/mutants/fixes/<commit>.diff  the `fix:` commits of /repo, applied in reverse (the defect returns) for the
                                property the known-findings file records for that commit
+  * two behaviour-preserving rewrites of the whole package (ppsa/rewrite.py): re-generation through ast.unparse, and
+    alpha-renaming of every function-local variable; both must leave every obligation discharged
 
 A variant whose anchor text is not in the current tree any more is skipped and counted.  A `violation` variant must make at
 least one obligation fail (with the given key prefix when there is one) without an analysis error; a `silent` variant must
@@ -141,6 +143,13 @@ def variants(prop, sp):
             continue
         ov = patch_overrides(sp, open(pp).read())
         out.append(("seeded %s" % os.path.basename(d), ov, "violation", None))
+    # behaviour-preserving rewrites of the whole package: layout (ast.unparse) and alpha-renaming of all function locals
+    from .rewrite import package_overrides
+    for mode in ("reformat", "rename"):
+        try:
+            out.append(("whole package %s" % mode, package_overrides(sp, mode), "silent", None))
+        except SyntaxError as e:
+            raise AnalysisError("rewrite %s produced invalid Python: %s" % (mode, e))
     kf = json.load(open(os.path.join(VERIF, "known_findings.json")))
     seen = set()
     for e in kf:
